@@ -63,14 +63,14 @@ theorem step_invariant (D : SlabID → DigestFn 4) {s s' : HState} {op : WOp} {o
   | arrInsert p i v w' cx' hp hv hop =>
     obtain ⟨g1, _, g3, _, g5, g6, _⟩ := C10W.worldOk'_arrInsert_all D s.w p i v s.cx w' cx' H (hh p hp).1 hv hop
     have hpl : (w'.cont? p).isSome := by obtain ⟨a, a', e, _, h2, _⟩ := g3; rw [h2]; rfl
-    exact ⟨g1, fun z hz => ⟨g6 z (hh z hz).1 (g5.live hpl (hh z hz).2), g5.live hpl (hh z hz).2⟩⟩
+    exact ⟨g1, fun z hz => ⟨g6 z (hh z hz).1 (g5.live_at hpl (hh z hz).2), g5.live_at hpl (hh z hz).2⟩⟩
   | arrSet p i v old w' cx' hp hv hop =>
     obtain ⟨g1, _, g3, _, g5, g6, _⟩ := C10W.worldOk'_arrSet_all D s.w p i v s.cx old w' cx' H (hh p hp).1 hv hop
     obtain ⟨a, a', old0, e, _, h2, _, _, h5, h6, _⟩ := g3
     have hpl : (w'.cont? p).isSome := by rw [h2]; rfl
     refine ⟨g1, fun z hz => ?_⟩
     rcases hz with hz | ⟨hz1, hz2⟩
-    · exact ⟨g6 z (hh z hz).1 (g5.live hpl (hh z hz).2), g5.live hpl (hh z hz).2⟩
+    · exact ⟨g6 z (hh z hz).1 (g5.live_at hpl (hh z hz).2), g5.live_at hpl (hh z hz).2⟩
     · exact handedBack_handle h6 (by rw [← h5]; exact hz1) hz2
   | arrRemove p i old w' cx' hp hop =>
     obtain ⟨g1, _, g3, _, g5, g6, _⟩ := C10W.worldOk'_arrRemove_all D s.w p i s.cx old w' cx' H (hh p hp).1 hop
@@ -78,7 +78,7 @@ theorem step_invariant (D : SlabID → DigestFn 4) {s s' : HState} {op : WOp} {o
     have hpl : (w'.cont? p).isSome := by rw [h2]; rfl
     refine ⟨g1, fun z hz => ?_⟩
     rcases hz with hz | ⟨hz1, hz2⟩
-    · exact ⟨g6 z (hh z hz).1 (g5.live hpl (hh z hz).2), g5.live hpl (hh z hz).2⟩
+    · exact ⟨g6 z (hh z hz).1 (g5.live_at hpl (hh z hz).2), g5.live_at hpl (hh z hz).2⟩
     · exact handedBack_handle h6 (by rw [← h5]; exact hz1) hz2
   | mapSet p k v old w' cx' hp hk hv hop =>
     obtain ⟨g1, _, g3, _, g5, g6, _⟩ :=
@@ -87,7 +87,7 @@ theorem step_invariant (D : SlabID → DigestFn 4) {s s' : HState} {op : WOp} {o
     have hpl : (w'.cont? p).isSome := by rw [h2]; rfl
     refine ⟨g1, fun z hz => ?_⟩
     rcases hz with hz | ⟨o, ho, hz1, hz2⟩
-    · exact ⟨g6 z (hh z hz).1 (g5.live hpl (hh z hz).2), g5.live hpl (hh z hz).2⟩
+    · exact ⟨g6 z (hh z hz).1 (g5.live_at hpl (hh z hz).2), g5.live_at hpl (hh z hz).2⟩
     · cases hoo : oldo with
       | none => rw [h5 hoo] at ho; cases ho
       | some o0 =>
@@ -101,7 +101,7 @@ theorem step_invariant (D : SlabID → DigestFn 4) {s s' : HState} {op : WOp} {o
     have hpl : (w'.cont? p).isSome := by rw [h2]; rfl
     refine ⟨g1, fun z hz => ?_⟩
     rcases hz with hz | ⟨hz1, hz2⟩
-    · exact ⟨g6 z (hh z hz).1 (g5.live hpl (hh z hz).2), g5.live hpl (hh z hz).2⟩
+    · exact ⟨g6 z (hh z hz).1 (g5.live_at hpl (hh z hz).2), g5.live_at hpl (hh z hz).2⟩
     · exact handedBack_handle h6 (by rw [← h5]; exact hz1) hz2
   | arrGet p i el w' hp hop =>
     obtain ⟨g1, g2, _, g4, g5⟩ := C10W.worldOk'_arrGet D s.w p i el w' s.cx.ctr H (hh p hp).1 hop
